@@ -266,8 +266,15 @@ def coq_compare(tag, imports, case_type, rendered, fns, shard_size=150, timeout=
                 f.write('Goal True. idtac "@@FN %s". exact I. Qed.\n' % fn)
                 f.write("Eval vm_compute in (bad_ids %s cases 0%%N).\n" % fn)
         rc, out = sh(["coqc", "-noglob", "-Q", COQ, "SV", path], timeout, cwd=d)
+        tries = 0
+        while rc != 0 and rc != 124 and out.strip() == "" and tries < 2:
+            # killed by a signal without a word (seen once under heavy machine load): not a statement about the
+            # cases; a Coq error always comes with a message and is never retried
+            tries += 1
+            time.sleep(2)
+            rc, out = sh(["coqc", "-noglob", "-Q", COQ, "SV", path], timeout, cwd=d)
         if rc != 0:
-            raise RuntimeError("coqc failed on %s:\n%s" % (path, out[-3000:]))
+            raise RuntimeError("coqc failed (rc=%s) on %s:\n%s" % (rc, path, out[-3000:]))
         res = {}
         parts = re.split(r"@@FN (\S+)", out)
         # parts: [pre, fn1, text1, fn2, text2...]
